@@ -129,3 +129,10 @@ impl Model {
         self.retained -= n.min(self.retained);
     }
 }
+
+/// Two model states hold the same key-value set. A value shorter than four bytes cannot carry its
+/// whole stamp, so two writes with different stamps can be byte-identical (an empty value always
+/// is): states are compared by the bytes they stand for, not by the specs that produced them.
+pub fn same_state(a: &State, b: &State) -> bool {
+    a.len() == b.len() && a.iter().zip(b.iter()).all(|((ka, va), (kb, vb))| ka == kb && va.len == vb.len && (va.stamp == vb.stamp || (va.len < 4 && crate::scenario::value_bytes(ka, *va) == crate::scenario::value_bytes(kb, *vb))))
+}
